@@ -1,11 +1,401 @@
 import GoguVerif.Go.Run
-/-! Driver wiring for C12 (stub — to be filled in). -/
+import GoguVerif.Model.C12
+import GoguVerif.Spec.C12
+/-!
+# Driver wiring for C12 (kind `c12`, stateless)
+
+For every protocol line: the model's answer (`Model.C12`, compared with the implementation's answer
+= correspondence) and the monitor's verdict (`Spec.C12`, evaluated on the implementation's answer).
+The callback families `p0…p5`, `f0…f5`, `r0…r3` are the same functions as in `harness/k_c12_test.go`.
+-/
 namespace GoguVerif.Kinds.C12
 open GoguVerif
+open GoguVerif.Model.C12 (Outcome)
+
+def pred? : String → Option (Int → Bool)
+  | "p0" => some fun x => x.tmod 2 == 0
+  | "p1" => some fun x => x > 1
+  | "p2" => some fun _ => true
+  | "p3" => some fun _ => false
+  | "p4" => some fun x => x == 2
+  | "p5" => some fun x => x < 0
+  | _ => none
+
+def key? : String → Option (Int → Int)
+  | "f0" => some fun x => x
+  | "f1" => some fun x => x.tmod 2
+  | "f2" => some fun x => x.tdiv 2
+  | "f3" => some fun _ => 0
+  | "f4" => some fun x => -x
+  | "f5" => some fun x => x * x
+  | _ => none
+
+/-- reducers `fn(v, acc)` -/
+def red? : String → Option (Int → Int → Int)
+  | "r0" => some fun v acc => acc + v
+  | "r1" => some fun v acc => 2 * acc + v
+  | "r2" => some fun v acc => v - acc
+  | "r3" => some fun _ acc => acc
+  | _ => none
+
+def matrix? : Val → Option (List (List Int))
+  | .list rows => rows.mapM Val.ints?
+  | _ => none
+
+def ofMatrix (m : List (List Int)) : Val := .list (m.map Val.ofInts)
+
+def groups? : Val → Option (List (Int × List Int))
+  | .list es => es.mapM fun e => match e with
+    | .list [.int k, g] => (g.ints?).map fun l => (k, l)
+    | _ => none
+  | _ => none
+
+def ofGroups (g : List (Int × List Int)) : Val := .list (g.map fun e => .list [.int e.1, Val.ofInts e.2])
+
+def insertGroup (e : Int × List Int) : List (Int × List Int) → List (Int × List Int)
+  | [] => [e]
+  | x :: r => if e.1 ≤ x.1 then e :: x :: r else x :: insertGroup e r
+
+/-- the harness prints what came out of the Go map sorted by key; so is the model's association list -/
+def sortGroups (g : List (Int × List Int)) : List (Int × List Int) := g.foldl (fun acc e => insertGroup e acc) []
+
+instance : Inhabited (Model.C12.Nested Int) := ⟨.bad⟩
+instance : Inhabited (Spec.C12.Nest Int) := ⟨.bad⟩
+
+partial def nestM : Val → Model.C12.Nested Int
+  | .int i => .leaf i
+  | .list (.atom "s" :: rest) => match rest.mapM Val.int? with
+    | some l => .slice l
+    | none => .bad
+  | .list l => .list (l.map nestM)
+  | .atom _ => .bad
+
+partial def nestS : Val → Spec.C12.Nest Int
+  | .int i => .leaf i
+  | .list (.atom "s" :: rest) => match rest.mapM Val.int? with
+    | some l => .slice l
+    | none => .bad
+  | .list l => .list (l.map nestS)
+  | .atom _ => .bad
+
+partial def nestDepth : Val → Nat
+  | .list (.atom "s" :: _) => 0
+  | .list l => 1 + (l.map nestDepth).foldl max 0
+  | _ => 0
+
+def natBytes? (v : Val) : Option (List Nat) := (v.bytes?).map fun l => l.map UInt8.toNat
+def ofNatBytes (l : List Nat) : Val := Val.ofBytes (l.map UInt8.ofNat)
+
+def panicV : List Val := [.atom "panic"]
+def isPanic (res : List Val) : Bool := match res with | [.atom "panic"] => true | _ => false
+
+def outVals {τ : Type} (f : τ → List Val) : Outcome τ → List Val
+  | .ok a => f a
+  | .panic => panicV
+
+/-- verdict helper: `none` = fine -/
+def clause (ok : Bool) (name : String) : Option String := if ok then none else some name
+
+structure Ans where
+  model : List Val
+  spec : Option String := none
+  tags : List String := []
+  nontrivial : Bool := false
+
+def distinct2 (s : List Int) : Bool := match s with
+  | [] => false
+  | x :: r => r.any (· != x)
+
+/-- the logging callback: returns the pure result and appends the visited element to the log -/
+def logging {β : Type} (f : Int → β) : Int → List Int → β × List Int := fun x log => (f x, log ++ [x])
+
+def answer (l : Line) : Option Ans :=
+  let res := l.res
+  match l.op, l.args with
+  | "chunk", [sv, .int n] => do
+    let s ← sv.ints?
+    let m := Model.C12.chunk s n
+    let spec :=
+      if n ≤ 0 then none                                   -- the deliberate panic is accepted here
+      else if isPanic res then some "chunk:no-panic-for-positive-size"
+      else match res with
+        | [rv] => match matrix? rv with
+          | some r => clause (decide (Spec.C12.ChunkOK s n.toNat r)) "chunk:cuts-into-size-n-pieces"
+          | none => some "chunk:malformed-answer"
+        | _ => some "chunk:malformed-answer"
+    let tag := if n ≤ 0 then "chunk-panic" else if s.length == 0 then "chunk-empty"
+      else if (s.length : Int).tmod n == 0 then "chunk-exact" else "chunk-short-last"
+    pure { model := outVals (fun r => [ofMatrix r]) m, spec := spec, tags := ["chunk", tag]
+           nontrivial := n ≤ 0 || (n < s.length && distinct2 s) }
+  | "partition", [.atom pn, sv] => do
+    let s ← sv.ints?
+    let p ← pred? pn
+    let (yes, no) := Model.C12.partition s p
+    let spec := match res with
+      | [a, b] => match a.ints?, b.ints? with
+        | some a, some b => clause (decide (Spec.C12.PartitionOK p s a b)) "partition:split-by-predicate"
+        | _, _ => some "partition:malformed-answer"
+      | _ => some "partition:malformed-answer"
+    pure { model := [Val.ofInts yes, Val.ofInts no], spec := spec, tags := ["partition"]
+           nontrivial := !yes.isEmpty && !no.isEmpty }
+  | "filter", [.atom pn, sv] => do
+    let s ← sv.ints?
+    let p ← pred? pn
+    let r := Model.C12.filter s p
+    let spec := match res with
+      | [a] => match a.ints? with
+        | some a => clause (decide (Spec.C12.FilterOK p s a)) "filter:keeps-exactly-the-satisfying"
+        | none => some "filter:malformed-answer"
+      | _ => some "filter:malformed-answer"
+    pure { model := [Val.ofInts r], spec := spec, tags := ["filter"]
+           nontrivial := !r.isEmpty && r.length < s.length }
+  | "reject", [.atom pn, sv] => do
+    let s ← sv.ints?
+    let p ← pred? pn
+    let r := Model.C12.reject s p
+    let spec := match res with
+      | [a] => match a.ints? with
+        | some a => clause (decide (Spec.C12.RejectOK p s a)) "reject:keeps-exactly-the-non-satisfying"
+        | none => some "reject:malformed-answer"
+      | _ => some "reject:malformed-answer"
+    pure { model := [Val.ofInts r], spec := spec, tags := ["reject"]
+           nontrivial := !r.isEmpty && r.length < s.length }
+  | "dropwhile", [.atom pn, sv] => do
+    let s ← sv.ints?
+    let p ← pred? pn
+    let r := Model.C12.dropWhile s p
+    let spec := match res with
+      | [a] => match a.ints? with
+        | some a => clause (decide (Spec.C12.DropWhileOK p s a)) "dropwhile:keeps-exactly-the-non-satisfying"
+        | none => some "dropwhile:malformed-answer"
+      | _ => some "dropwhile:malformed-answer"
+    pure { model := [Val.ofInts r], spec := spec, tags := ["dropwhile"]
+           nontrivial := !r.isEmpty && r.length < s.length }
+  | "droprightwhile", [.atom pn, sv] => do
+    let s ← sv.ints?
+    let p ← pred? pn
+    let m := Model.C12.dropRightWhile s p
+    let spec :=
+      if isPanic res then some "droprightwhile:no-panic"
+      else match res with
+      | [a] => match a.ints? with
+        | some a => clause (decide (Spec.C12.DropRightWhileOK p s a)) "droprightwhile:keeps-the-non-satisfying-reversed"
+        | none => some "droprightwhile:malformed-answer"
+      | _ => some "droprightwhile:malformed-answer"
+    let nt := match m with | .ok r => !r.isEmpty && r.length < s.length | .panic => false
+    pure { model := outVals (fun r => [Val.ofInts r]) m, spec := spec, tags := ["droprightwhile"], nontrivial := nt }
+  | "groupby", [.atom fname, sv] => do
+    let s ← sv.ints?
+    let f ← key? fname
+    let m := Model.C12.groupBy s f
+    let spec :=
+      if isPanic res then some "groupby:no-panic"
+      else match res with
+      | [a] => match groups? a with
+        | some g => clause (decide (Spec.C12.GroupOK f s g)) "groupby:groups-by-key-in-order"
+        | none => some "groupby:malformed-answer"
+      | _ => some "groupby:malformed-answer"
+    let nt := match m with | .ok g => g.length ≥ 2 && g.any (fun e => e.2.length ≥ 2) | .panic => false
+    pure { model := outVals (fun g => [ofGroups (sortGroups g)]) m, spec := spec, tags := ["groupby"], nontrivial := nt }
+  | op@"zip", [mv] | op@"unzip", [mv] => do
+    let m ← matrix? mv
+    let tr := op == "unzip"
+    let square := decide (Spec.C12.Square m)
+    -- the line shows f(m) and g(f(m)) where (f, g) = (Zip, Unzip) or (Unzip, Zip)
+    let model := match Model.C12.zipWith tr m with
+      | .panic => panicV
+      | .ok r => match Model.C12.zipWith (!tr) r with
+        | .panic => panicV
+        | .ok back => [ofMatrix r, ofMatrix back]
+    let spec :=
+      if !square then none                                  -- the deliberate panic is accepted here
+      else if isPanic res then some s!"{op}:no-panic-on-square-input"
+      else match res with
+        | [a, b] => match matrix? a, matrix? b with
+          | some r, some back =>
+            if !decide (Spec.C12.TransposeOK m r) then some s!"{op}:transposes"
+            else clause (back == m) s!"{op}:undone-by-its-opposite"
+          | _, _ => some s!"{op}:malformed-answer"
+        | _ => some s!"{op}:malformed-answer"
+    let symmetric := match Model.C12.zipWith tr m with | .ok r => r == m | .panic => true
+    pure { model := model, spec := spec, tags := [op, if square then op ++ "-square" else op ++ "-nonsquare-panic"]
+           nontrivial := !square || (m.length ≥ 2 && !symmetric) }
+  | "flatten", [nv] => do
+    let mres := Model.C12.flatten (nestM nv)
+    let model := match mres with
+      | some r => [Val.atom "ok", Val.ofInts r]
+      | none => [Val.atom "err"]
+    let ns := nestS nv
+    let ans : Option (Option (List Int)) := match res with
+      | [.atom "ok", a] => (a.ints?).map some
+      | [.atom "err"] => some none
+      | _ => none
+    let spec :=
+      if isPanic res then some "flatten:no-panic"
+      else match ans with
+        | none => some "flatten:malformed-answer"
+        | some a => clause (decide (Spec.C12.FlattenOK ns a)) "flatten:leaves-left-to-right"
+    let d := nestDepth nv
+    let nt := match mres with | some r => d ≥ 2 && r.length ≥ 2 | none => true
+    pure { model := model, spec := spec, nontrivial := nt
+           tags := ["flatten", if mres.isNone then "flatten-err" else s!"flatten-depth{min d 4}"] }
+  | "merge", [mv] => do
+    let m ← matrix? mv
+    match m with
+    | [] => none
+    | s :: params =>
+      let r := Model.C12.merge s params
+      let spec := match res with
+        | [a] => match a.ints? with
+          | some a => clause (decide (Spec.C12.MergeOK s params a)) "merge:concatenates"
+          | none => some "merge:malformed-answer"
+        | _ => some "merge:malformed-answer"
+      pure { model := [Val.ofInts r], spec := spec, tags := ["merge"]
+             nontrivial := (m.filter (fun x => !x.isEmpty)).length ≥ 2 }
+  | "drop", [sv, .int n] => do
+    let s ← sv.ints?
+    let m := Model.C12.drop s n
+    let spec :=
+      if isPanic res then some "drop:no-panic"
+      else match res with
+      | [a] => match a.ints? with
+        | some a => clause (decide (Spec.C12.DropOK s n a)) "drop:removes-n-from-front-or-back"
+        | none => some "drop:malformed-answer"
+      | _ => some "drop:malformed-answer"
+    let tag := if n == 0 then "drop-zero" else if n.natAbs < s.length then (if n > 0 then "drop-front" else "drop-back")
+      else if n.natAbs == s.length then "drop-exactly-all" else "drop-more-than-all"
+    pure { model := outVals (fun r => [Val.ofInts r]) m, spec := spec, tags := ["drop", tag]
+           nontrivial := n != 0 && n.natAbs < s.length && distinct2 s }
+  | "reverse", [sv] => do
+    let s ← sv.ints?
+    let model := match Model.C12.reverse s with
+      | .panic => panicV
+      | .ok r => match Model.C12.reverse r with
+        | .panic => panicV
+        | .ok rr => [Val.ofInts r, Val.ofInts rr]
+    let spec :=
+      if isPanic res then some "reverse:no-panic"
+      else match res with
+      | [a, b] => match a.ints?, b.ints? with
+        | some r, some rr =>
+          if !decide (Spec.C12.Reversed s r) then some "reverse:lists-backwards"
+          else clause (rr == s) "reverse:involution"
+        | _, _ => some "reverse:malformed-answer"
+      | _ => some "reverse:malformed-answer"
+    pure { model := model, spec := spec, tags := ["reverse"], nontrivial := s.length ≥ 2 && s.reverse != s }
+  | "reversestr", [sv] => do
+    let s ← natBytes? sv
+    let model := match Model.C12.reverseStr s with
+      | .panic => panicV
+      | .ok r => match Model.C12.reverseStr r with
+        | .panic => panicV
+        | .ok rr => [ofNatBytes r, ofNatBytes rr]
+    let valid := Spec.C12.parse? s
+    let spec :=
+      if isPanic res then some "reversestr:no-panic"
+      else match res with
+      | [a, b] => match natBytes? a, natBytes? b with
+        | some r, some rr =>
+          -- `reverseStrCheck` decides the clause (Theorems.C12.reverseStrCheck_iff); the rest only
+          -- names the part that failed
+          if Spec.C12.reverseStrCheck s r rr then none
+          else match valid with
+          | none => none
+          | some rs =>
+            if r != Spec.C12.utf8All rs.reverse then some "reversestr:reverses-the-runes"
+            else some "reversestr:involution"
+        | _, _ => some "reversestr:malformed-answer"
+      | _ => some "reversestr:malformed-answer"
+    let nt := match valid with
+      | some rs => rs.length ≥ 2 && rs.any (· ≥ 0x80) && rs.reverse != rs
+      | none => false
+    pure { model := model, spec := spec, nontrivial := nt
+           tags := ["reversestr", if valid.isSome then "reversestr-valid-utf8" else "reversestr-invalid-utf8"] }
+  | "shuffle", [sv, .int _] => do
+    let s ← sv.ints?
+    match res with
+    | [rv, jv, av] =>
+      let js ← jv.ints?
+      if js.length != s.length then none
+      else
+        let rnd : Nat → Nat := fun c => match js[c]? with | some j => j.toNat | none => 0
+        let model := match Model.C12.shuffle rnd s with
+          | .panic => panicV
+          | .ok r => [Val.ofInts r, jv, sv]
+        let spec := match rv.ints?, av.ints? with
+          | some r, some a =>
+            if !decide (Spec.C12.ShuffleOK s r) then some "shuffle:permutation"
+            else clause (a == s) "shuffle:argument-unchanged"
+          | _, _ => some "shuffle:malformed-answer"
+        let moved := match rv.ints? with | some r => r != s | none => false
+        pure { model := model, spec := spec, tags := ["shuffle"], nontrivial := s.length ≥ 3 && moved }
+    | _ =>
+      if isPanic res then
+        pure { model := [], spec := some "shuffle:no-panic", tags := ["shuffle"] }
+      else none
+  | "map", [.atom fname, sv] => do
+    let s ← sv.ints?
+    let f ← key? fname
+    let m := Model.C12.map s (logging f) []
+    let spec :=
+      if isPanic res then some "map:no-panic"
+      else match res with
+      | [a, b] => match a.ints?, b.ints? with
+        | some r, some log =>
+          if log != s then some "map:visits-once-in-index-order"
+          else clause (decide (Spec.C12.MapOK f s r log)) "map:image-per-position"
+        | _, _ => some "map:malformed-answer"
+      | _ => some "map:malformed-answer"
+    pure { model := outVals (fun r => [Val.ofInts r.1, Val.ofInts r.2]) m, spec := spec, tags := ["map"]
+           nontrivial := distinct2 s }
+  | "foreach", [sv] => do
+    let s ← sv.ints?
+    let log := Model.C12.forEach (fun x (log : List Int) => log ++ [x]) s []
+    let spec :=
+      if isPanic res then some "foreach:no-panic"
+      else match res with
+      | [a] => match a.ints? with
+        | some lg => clause (decide (Spec.C12.ForEachOK s lg)) "foreach:visits-once-in-index-order"
+        | none => some "foreach:malformed-answer"
+      | _ => some "foreach:malformed-answer"
+    pure { model := [Val.ofInts log], spec := spec, tags := ["foreach"], nontrivial := distinct2 s }
+  | "foreachright", [sv] => do
+    let s ← sv.ints?
+    let m := Model.C12.forEachRight s (fun x (log : List Int) => log ++ [x]) []
+    let spec :=
+      if isPanic res then some "foreachright:no-panic"
+      else match res with
+      | [a] => match a.ints? with
+        | some lg => clause (decide (Spec.C12.ForEachRightOK s lg)) "foreachright:visits-once-in-reverse-order"
+        | none => some "foreachright:malformed-answer"
+      | _ => some "foreachright:malformed-answer"
+    pure { model := outVals (fun lg => [Val.ofInts lg]) m, spec := spec, tags := ["foreachright"]
+           nontrivial := distinct2 s }
+  | "reduce", [.atom rn, sv, .int init] => do
+    let s ← sv.ints?
+    let f ← red? rn
+    let (v, log) := Model.C12.reduce (fun x acc (log : List Int) => (f x acc, log ++ [x])) s init []
+    let spec :=
+      if isPanic res then some "reduce:no-panic"
+      else match res with
+      | [.int v', b] => match b.ints? with
+        | some lg =>
+          if lg != s then some "reduce:visits-once-in-index-order"
+          else clause (decide (Spec.C12.ReduceOK f s init v' lg)) "reduce:left-fold"
+        | none => some "reduce:malformed-answer"
+      | _ => some "reduce:malformed-answer"
+    pure { model := [.int v, Val.ofInts log], spec := spec, tags := ["reduce"], nontrivial := distinct2 s }
+  | _, _ => none
 
 def kind : Kind where
   σ := Unit
   init := fun _ => some ()
-  step := fun st l => { st := st, bad := some s!"C12: kind not implemented ({l.op})" }
+  step := fun st l =>
+    match l.res with
+    | [.atom "hang"] => { st := st, spec := some s!"terminates:{l.op}" }
+    | _ =>
+      match answer l with
+      | none => { st := st, bad := some s!"c12: cannot read line ({l.op})" }
+      | some a => { st := st, model := some a.model, spec := a.spec, tags := a.tags, nontrivial := a.nontrivial }
 
 end GoguVerif.Kinds.C12
